@@ -9,6 +9,10 @@ NOTE_COMMON = ('Trusted: z3 5.1.0, the symx value classes/numpy facade (validate
                'Bounds, stubs and what lies outside the claim are written into the evidence file by every run.')
 
 CHECKS = {
+ 'C02': dict(
+   text='Partial (assembly, kernel formula, Gauss exactness; the quadrature-accuracy clause is outside). The real matrix fill runs on concrete catalogue geometries (2x/3x segment counts, free space and ground, junctions of every end combination, tapered wire, arc, helix, leaning grounded wires) with every numerical integral replaced by an unknown complex number identified only by what the integral depends on; for every pair of pulses at least 2.5 segments apart z3 decides for ALL values of those unknowns (given additivity of an integral over its halves) that the entry is the published MININEC-3 combination written from pulse geometry alone, incl. the image term and its omission for pulses on the ground plane. A structural difference is replayed on the real code against adaptive quadrature with the 1e-4 tolerance of the property.',
+   design='DESIGN.md 3 (C02), 9',
+   technique='symbolic execution of the real matrix fill with the numerical integration abstracted to uninterpreted integral-atoms (linear forms over atoms, z3 LRA decides equality with the reference for all atom values); Gauss exactness in LRA on symbolic polynomial coefficients; kernel formula by congruence over uninterpreted exp/sqrt; candidates replayed numerically on the untouched package'),
  'C07': dict(
    text='For all complex source voltages, all factors a, all frequencies and all non-singular system matrices up to 4x4 (larger: the concrete matrix of a catalogue member), homogeneity, superposition and the V/I, Re(VI*)/2 source data are decided by z3 as identities; bounded by the listed geometries and source placements.',
    design='DESIGN.md 3 (C07)'),
